@@ -7,10 +7,13 @@ package genesis
 import (
 	"bytes"
 	"crypto/sha256"
+	"encoding/hex"
 	"encoding/json"
 	"fmt"
 	"os"
+	"regexp"
 	"sort"
+	"strings"
 	"testing"
 	"time"
 
@@ -26,9 +29,11 @@ import (
 	ratelimittypes "github.com/cosmos/ibc-go/v11/modules/apps/rate-limiting/types"
 	transfertypes "github.com/cosmos/ibc-go/v11/modules/apps/transfer/types"
 	clienttypes "github.com/cosmos/ibc-go/v11/modules/core/02-client/types"
+	clientv2types "github.com/cosmos/ibc-go/v11/modules/core/02-client/v2/types"
 	channeltypes "github.com/cosmos/ibc-go/v11/modules/core/04-channel/types"
 	channeltypesv2 "github.com/cosmos/ibc-go/v11/modules/core/04-channel/v2/types"
 	commitmenttypes "github.com/cosmos/ibc-go/v11/modules/core/23-commitment/types"
+	host "github.com/cosmos/ibc-go/v11/modules/core/24-host"
 	ibctm "github.com/cosmos/ibc-go/v11/modules/light-clients/07-tendermint"
 	ibctesting "github.com/cosmos/ibc-go/v11/testing"
 	ibcmock "github.com/cosmos/ibc-go/v11/testing/mock"
@@ -196,7 +201,15 @@ func roundTrip(c *ibctesting.TestChain) map[string]any {
 		}
 		sort.Strings(keys)
 		for _, k := range keys {
-			state = append(state, []string{s, hx.HS(k), digest(before[s][k])})
+			val := digest(before[s][k])
+			if s == "ibc" && strings.HasPrefix(k, "clients/") && strings.HasSuffix(k, "/counterparty") {
+				// the model's F8 check reads the counterparty's client id: project the value to that field
+				var info clientv2types.CounterpartyInfo
+				if err := c.App.AppCodec().Unmarshal([]byte(before[s][k]), &info); err == nil {
+					val = hx.HS(info.ClientId)
+				}
+			}
+			state = append(state, []string{s, hx.HS(k), val})
 		}
 	}
 	res["state"] = state
@@ -235,6 +248,9 @@ func roundTrip(c *ibctesting.TestChain) map[string]any {
 		}
 	}
 	res["reexport_same"] = same
+	if st2 == "ok" && !same["ratelimit"] {
+		dbg("ratelimit export 1: %s\nratelimit export 2: %s", gs["ratelimit"], gs2["ratelimit"])
+	}
 	return res
 }
 
@@ -253,6 +269,22 @@ func runHistory(t *testing.T, r *hx.Rng, o *hx.Out, tag string, f feature) {
 	ops := []string{}
 	note := func(s string) { ops = append(ops, s) }
 	var cont []contOp
+	if os.Getenv("GENESIS_HOUR0") == "" {
+		// ibctesting's clock starts at 00:00 UTC, where the rate-limit hour epoch has number 0, which
+		// rate-limiting InitGenesis treats as "not initialised" (see docs/sys.md); move past the first hour
+		coord.IncrementTimeBy(95 * time.Minute)
+		coord.CommitBlock(A, B, C)
+		coord.CommitBlock(A, B, C)
+	}
+	// ibctesting runs InitChain with a zero block time, which leaves the rate-limit hour epoch uninitialised (zero
+	// start time); give every chain the epoch a chain started with a real clock has
+	for _, c := range []*ibctesting.TestChain{A, B, C} {
+		ctx := c.GetContext()
+		mustT(t, c.GetSimApp().RateLimitKeeper.SetHourEpoch(ctx, ratelimittypes.HourEpoch{
+			EpochNumber: uint64(ctx.BlockTime().Hour()), Duration: time.Hour,
+			EpochStartTime: ctx.BlockTime().Truncate(time.Hour), EpochStartHeight: ctx.BlockHeight()}), "hour epoch")
+	}
+	coord.CommitBlock(A, B, C)
 
 	if !f.sameIDs {
 		// chains number their clients independently; shift A's numbering so that a client and its counterparty
@@ -321,7 +353,7 @@ func runHistory(t *testing.T, r *hx.Rng, o *hx.Out, tag string, f feature) {
 			if err := pT.EndpointA.UpdateClient(); err != nil {
 				return err
 			}
-			return pT.EndpointA.TimeoutPacket(p)
+			return timeoutV1(pT.EndpointA, p)
 		}})
 	}
 
@@ -476,14 +508,24 @@ func runHistory(t *testing.T, r *hx.Rng, o *hx.Out, tag string, f feature) {
 	// ---- round trips, then continuation on the restored chains
 	out := map[string]any{}
 	chains := map[string]any{}
+	aliasLost := false
 	for _, c := range []struct {
 		n string
 		c *ibctesting.TestChain
 	}{{"A", A}, {"B", B}, {"C", C}} {
-		chains[c.n] = roundTrip(c.c)
+		rt := roundTrip(c.c)
+		chains[c.n] = rt
+		if l, ok := rt["lost"].([][]string); ok {
+			for _, kv := range l {
+				if kv[0] == "ibc" && aliasShaped(kv[1]) {
+					aliasLost = true
+				}
+			}
+		}
+		o.Emit("genesis_rt", map[string]any{"ops": ops, "tag": tag, "chain": c.n}, rt, tag)
 	}
 	coord.CommitBlock(A, B, C)
-	out["chains"] = chains
+	out["alias_lost"] = aliasLost
 	contOut := []any{}
 	restored := true
 	for _, c := range chains {
@@ -531,8 +573,29 @@ func runHistory(t *testing.T, r *hx.Rng, o *hx.Out, tag string, f feature) {
 		}
 	}
 	out["fresh_transfer"] = fresh
-	o.Emit("genesis_hist", map[string]any{"ops": ops, "tag": tag}, out, tag)
+	out["restored"] = restored
+	o.Emit("genesis_cont", map[string]any{"ops": ops, "tag": tag}, out, tag)
 	_ = abci.ExecTxResult{}
+}
+
+var aliasRe = regexp.MustCompile(`^(channel-[0-9]+)(alias|[\x01\x02\x03].{8}|async_packet.{8})$|^clients/channel-[0-9]+/counterparty$`)
+
+func aliasShaped(hexKey string) bool {
+	b, err := hex.DecodeString(hexKey)
+	return err == nil && aliasRe.Match(b)
+}
+
+// timeoutV1 is Endpoint.TimeoutPacket for an UNORDERED channel without the helper's require (a missing
+// counterparty sequence after a faulty restore must be an observed failure, not an aborted run).
+func timeoutV1(ep *ibctesting.Endpoint, packet channeltypes.Packet) error {
+	cp := ep.Counterparty
+	proof, proofHeight := cp.QueryProof(host.PacketReceiptKey(packet.GetDestPort(), packet.GetDestChannel(), packet.GetSequence()))
+	next, found := cp.Chain.App.GetIBCKeeper().ChannelKeeper.GetNextSequenceRecv(cp.Chain.GetContext(), cp.ChannelConfig.PortID, cp.ChannelID)
+	if !found {
+		return fmt.Errorf("counterparty has no next receive sequence for %s/%s", cp.ChannelConfig.PortID, cp.ChannelID)
+	}
+	_, err := ep.Chain.SendMsgs(channeltypes.NewMsgTimeout(packet, next, proof, proofHeight, ep.Chain.SenderAccount.GetAddress().String()))
+	return err
 }
 
 type pres struct {
